@@ -2,7 +2,9 @@
 # False-alarm regression: every kept property-preserving refactor must leave every check quiet.
 cd "$(dirname "$0")/.." || exit 2
 rc=0
+lane=${2:-0}; nlanes=${3:-1}; i=0      # optional: tools/benign_all.sh <budget> <lane> <nlanes>
 for d in benign/*/; do
+  i=$((i+1)); [ $((i % nlanes)) -eq "$lane" ] || continue
   id=$(basename "$d")
   out=$(timeout 3000 /venv/bin/python tools/benign.py "benign/$id" --budget "${1:-8}" 2>/dev/null) || rc=1
   printf '%s' "$out" | /venv/bin/python -c "
